@@ -132,6 +132,38 @@ func nearMiss(c *Ctx, v any) any {
 	return "~" // not a canonical value: any string differs from it
 }
 
+func allCanon(vs []any) bool {
+	for _, v := range vs {
+		if !canon(v) {
+			return false
+		}
+	}
+	return true
+}
+
+// viaJSON returns the schema decoded from the JSON text of doc (or fallback if that fails). The
+// same text is decoded a second time into another Schema value, which its owner then edits in
+// place (the constant behind its Const pointer, the elements of its Enum slice): two values
+// decoded separately share nothing, so the edit must not reach the first.
+func viaJSON(c *Ctx, doc map[string]any, fallback *jsonschema.Schema) *jsonschema.Schema {
+	text := []byte(JSON(doc))
+	var a, b jsonschema.Schema
+	var ea, eb error
+	r := Op(func() { ea = json.Unmarshal(text, &a); eb = json.Unmarshal(text, &b) })
+	c.CheckOp("Unmarshal", r)
+	if r.Panicked || ea != nil || eb != nil {
+		return fallback
+	}
+	if b.Const != nil {
+		*b.Const = "edited by the owner of the second schema"
+	}
+	for i := range b.Enum {
+		b.Enum[i] = "edited by the owner of the second schema"
+	}
+	c.Probe("schema-decoded-from-json-next-to-an-edited-twin")
+	return &a
+}
+
 // canon reports whether v is built from nil, bool, float64, string, []any and map[string]any only.
 func canon(v any) bool {
 	switch x := v.(type) {
@@ -410,6 +442,9 @@ func driveC12(c *Ctx) {
 			}
 		}
 		schema = &jsonschema.Schema{Enum: vals}
+		if c.W(3) == 0 && allCanon(vals) {
+			schema = viaJSON(c, map[string]any{"enum": vals}, schema)
+		}
 		if n > 0 && c.W(2) == 0 {
 			inst = rerepr(c, clone0(vals[c.W(n)]), 2)
 			planted = true
@@ -424,6 +459,9 @@ func driveC12(c *Ctx) {
 	case 3:
 		v := GenValue(c, 2)
 		schema = &jsonschema.Schema{Const: &v}
+		if c.W(2) == 0 && canon(v) {
+			schema = viaJSON(c, map[string]any{"const": v}, schema)
+		}
 		if c.W(2) == 0 {
 			inst = rerepr(c, clone0(v), 2)
 			planted = true
